@@ -1,0 +1,20 @@
+//go:build verif
+
+package pop3
+
+import "net"
+
+// VerifServeConn runs one POP3 session on the supplied connection and returns when it ends.
+// Verification hook: compiled only with the "verif" build tag.
+func (s *Server) VerifServeConn(id int, conn net.Conn) {
+	s.wg.Add(1)
+	s.startSession(id, conn)
+}
+
+// VerifAddr returns the address the listener is bound to (nil before Start).
+func (s *Server) VerifAddr() net.Addr {
+	if s.listener == nil {
+		return nil
+	}
+	return s.listener.Addr()
+}
